@@ -44,6 +44,7 @@ type c14BloomSource struct {
 	reads    int      // ReadAt calls since the last reset that touch a bloom filter section
 	hits     int      // of them, failed
 	all      [][2]int // every bloom filter section of the file
+	keep     string   // short modes: "" at most 3 bytes | half | minus1 (all but the last byte)
 }
 
 var errBloomRead = errors.New("c14: injected ReadAt failure (bloom filter section)")
@@ -72,7 +73,14 @@ func (r *c14BloomSource) ReadAt(p []byte, off int64) (int, error) {
 		}
 		// a short count: fewer bytes than any header or block needs, so that the
 		// lookup cannot be answered from what was delivered
-		n := copy(p[:min(len(p)/2, 3)], r.data[min(int(off), len(r.data)):])
+		lim := min(len(p)/2, 3)
+		switch r.keep {
+		case "half":
+			lim = len(p) / 2
+		case "minus1":
+			lim = len(p) - 1
+		}
+		n := copy(p[:lim], r.data[min(int(off), len(r.data)):])
 		switch r.mode {
 		case "short-eof":
 			return n, io.EOF
@@ -95,10 +103,12 @@ type c14BloomReplay struct {
 	What    string  `json:"what"` // bloom
 	Spec    c14Spec `json:"spec"`
 	Gzip    bool    `json:"gzip_filters,omitempty"`
-	Open    string  `json:"open"`            // default | skip (SkipBloomFilters) | prefetch (PrefetchBloomFilters)
-	Entry   string  `json:"entry"`           // chunk:<g> | multi | merge | convert | from:<g>
-	Column  string  `json:"column"`          // id | name
-	FaultRG int     `json:"fault_row_group"` // -1: the filters of every row group
+	Open    string  `json:"open"`                   // default | skip (SkipBloomFilters) | prefetch (PrefetchBloomFilters)
+	Entry   string  `json:"entry"`                  // chunk:<g> | multi | merge | convert | from:<g>
+	Column  string  `json:"column"`                 // id | name
+	FaultRG int     `json:"fault_row_group"`        // -1: the filters of every row group
+	During  string  `json:"fault_during,omitempty"` // "" after the open | open (then the source recovers) | open-and-after
+	Keep    string  `json:"short_keeps,omitempty"`  // bytes a short read delivers: "" at most 3 | half | minus1
 	Mode    string  `json:"mode"`
 	Value   string  `json:"value"`
 }
@@ -332,6 +342,24 @@ func (env *c14Env) bloomLookups(sp *c14Spec, gzip bool) {
 				}
 				needs[g] = src.reads > 0
 			}
+			// the reads of the filter sections fail DURING OpenFile (what the open reads of a
+			// filter depends on the options: the header, nothing, header and bits)
+			for fg := -1; fg < nrg; fg++ {
+				for mi, mode := range c14BloomModes {
+					keeps := []string{""}
+					if mode != "error" {
+						keeps = []string{"", "half", "minus1"}
+					}
+					for ki, keep := range keeps {
+						for di, during := range []string{"open", "open-and-after"} {
+							if c.Quick() && mode != "short-eof" && (fg+1+mi+ki+di)%2 != 0 {
+								continue
+							}
+							env.bloomOpenCase(sp, gzip, data, open, entries, colName, col, fg, mode, keep, during, values[colName], stored[colName], allSecs)
+						}
+					}
+				}
+			}
 			for ei, entry := range entries {
 				for fg := -1; fg < nrg; fg++ {
 					for mi, mode := range c14BloomModes {
@@ -472,6 +500,114 @@ func (env *c14Env) bloomCase(sp *c14Spec, gzip bool, data []byte, open, entry, c
 			rp.Value = v.text
 			c.Violation("bloom-stored-value-absent", where(v.text)+fmt.Sprintf(": after the source recovered Check = (%v, %v) %s", ok, err, panicked), rp)
 			return
+		}
+	}
+}
+
+// bloomOpenCase: the reads that start in the faulted filter sections fail
+// while OpenFile runs (and afterwards, or the source recovers).  Predicate:
+// OpenFile returns an error, or no lookup through any entry point answers
+// (false, nil) for a stored value; while the source still fails, a lookup
+// during which a read failed returns an error.  (A filter that is not handed
+// out - BloomFilter() == nil - prunes nothing.)
+func (env *c14Env) bloomOpenCase(sp *c14Spec, gzip bool, data []byte, open string, entries []string, colName string, col, fg int, mode, keep, during string,
+	values []c14BloomValue, stored map[string][]bool, allSecs [][2]int) {
+	c := env.c
+	rp := c14BloomReplay{What: "bloom", Spec: *sp, Gzip: gzip, Open: open, Column: colName, FaultRG: fg, Mode: mode, During: during, Keep: keep}
+	which := "every row group"
+	if fg >= 0 {
+		which = fmt.Sprintf("row group %d", fg)
+	}
+	delivers := ""
+	if mode != "error" {
+		delivers = ", delivering " + map[string]string{"": "at most 3 bytes", "half": "half of the bytes asked for", "minus1": "all but the last byte"}[keep]
+	}
+	for _, entry := range entries {
+		rp.Entry = entry
+		src := &c14BloomSource{data: data, mode: mode, all: allSecs, keep: keep, armed: true}
+		if fg < 0 {
+			src.sections = allSecs
+		} else {
+			src.sections = [][2]int{allSecs[fg]}
+		}
+		where := func(v string) string {
+			return fmt.Sprintf("file %s (%d row groups, gzip filters %v) opened with %s options WHILE the reads of the bloom filter section of %s fail (%s%s); %d reads failed during OpenFile, which returned nil; then the source %s; lookup of %s in column %s through %s",
+				sp.Name, len(allSecs), gzip, open, which, mode, delivers, src.hits, map[string]string{"open": "recovers", "open-and-after": "keeps failing"}[during], v, colName, entry)
+		}
+		var f *parquet.File
+		var get func() parquet.BloomFilter
+		var parts []int
+		var openErr error
+		panicked := ""
+		func() {
+			defer func() {
+				if x := recover(); x != nil {
+					panicked = fmt.Sprint(x)
+				}
+			}()
+			f, openErr = parquet.OpenFile(src, int64(len(data)), append(env.openOpts(sp), c14BloomOpenOptions(open)...)...)
+			if openErr == nil {
+				var err error
+				get, parts, err = c14BloomEntry(f, src, entry, col)
+				if err != nil {
+					panicked = "entry: " + err.Error()
+				}
+			}
+		}()
+		c.Case(fmt.Sprintf("bloom-open/%s/%s", open, mode), fmt.Sprintf("%s|%v|%s|%s|%s|%d|%s|%s|%s", sp.Name, gzip, open, entry, colName, fg, mode, keep, during), src.hits > 0)
+		if panicked != "" {
+			c.Violation("bloom-panic", where("-")+": "+core.Trunc(panicked, 200), rp)
+			return
+		}
+		if openErr != nil {
+			// the failure surfaced: the other entry points would see the same open
+			return
+		}
+		openHits := src.hits
+		src.armed = during == "open-and-after"
+		for _, v := range values {
+			rp.Value = v.text
+			src.hits = 0
+			var ok bool
+			var err error
+			none := false
+			func() {
+				defer func() {
+					if x := recover(); x != nil {
+						panicked = fmt.Sprint(x)
+					}
+				}()
+				bf := get()
+				if bf == nil {
+					none = true
+					return
+				}
+				ok, err = bf.Check(v.v)
+			}()
+			lookupHits := src.hits
+			src.hits = openHits
+			if panicked != "" {
+				c.Violation("bloom-panic", where(v.text)+": "+core.Trunc(panicked, 200), rp)
+				return
+			}
+			if none {
+				continue
+			}
+			isStored := false
+			for _, g := range parts {
+				if stored[v.text] != nil && stored[v.text][g] {
+					isStored = true
+				}
+			}
+			switch {
+			case isStored && !ok && err == nil:
+				c.Violation("bloom-stored-value-absent", where(v.text)+": Check = (false, nil) although the value is stored", rp)
+				return
+			case lookupHits > 0 && err == nil && keep == "":
+				// (a longer short read may deliver everything the lookup needs)
+				c.Violation("bloom-read-error-dropped", where(v.text)+fmt.Sprintf(": %d reads of filter sections failed during the lookup and Check returned (%v, nil)", lookupHits, ok), rp)
+				return
+			}
 		}
 	}
 }
